@@ -133,8 +133,9 @@ def r3_retire(prog, rep: Report, pf: PoolFacts):
     run_ = prog.method(pf.worker, "run")
     rep.fn(run_)
     client = _Retire(pf, run_)
-    it = Interp(prog, client)
-    ex = it.run(run_, {(None, None, False)}, pf.worker)
+    from ..absint import FlagTracking
+    it = Interp(prog, FlagTracking(client))            # a `stopped = True; break` flag reads like the break it replaces
+    ex = FlagTracking.unwrap(it.run(run_, FlagTracking.wrap({(None, None, False)}), pf.worker))
     finals = ex.normal | ex.ret
     if not finals:
         rep.unrec("C03.R3", run_, "retire", "run() has no normal exit")
